@@ -297,5 +297,23 @@ M_H = {
                  ["LoopHandle::insert_idle (+ wrapper closure)", "Idle::cancel", "<Option<F> as CancellableIdle>::cancel"], "all paths"),
 }
 
-PROPS["DEV"] = dict(level="proof", k=[], m=list(M_H.values()))
+M_L = {
+    "run": M("run", OB.ob_run, OB.ob_run.__doc__, ["EventLoop::run"], "2 loop iterations"),
+    "block_on": M("block_on", OB.ob_block_on, OB.ob_block_on.__doc__, ["EventLoop::block_on"], "2 loop iterations"),
+    "signal": M("signal", OB.ob_signal, OB.ob_signal.__doc__, ["LoopSignal::stop", "LoopSignal::wakeup", "Notifier::notify",
+                "EventLoopWaker::wake", "EventLoopWaker::wake_by_ref"], "all paths (loop-free)"),
+}
+M_CH = {
+    "send": M("chan_send", OB.ob_chan_send, OB.ob_chan_send.__doc__, ["channel::Sender::send", "channel::SyncSender::try_send",
+              "channel::SyncSender::send", "<PingOnDrop as Drop>::drop"], "all paths (loop-free)"),
+    "process": M("chan_process", OB.ob_chan_process, OB.ob_chan_process.__doc__, ["<Channel<T> as EventSource>::process_events (+closure)",
+                 "<PingSource as EventSource>::process_events (+closures)", "<Generic as EventSource>::process_events", "drain_ping", "Ping::ping", "send_ping"],
+                 "receive loop unrolled twice; the batch-limit expression for every 64-bit capacity"),
+}
+M_PING = {
+    "ping": M("ping", OB.ob_ping, OB.ob_ping.__doc__, ["Ping::ping", "<FlagOnDrop as Drop>::drop", "send_ping", "drain_ping",
+              "<PingSource as EventSource>::process_events (+closures)", "<Generic as EventSource>::process_events"], "all paths; every 64-bit counter value"),
+}
+
+PROPS["DEV"] = dict(level="proof", k=[], m=list(M_L.values()) + list(M_CH.values()) + list(M_PING.values()))
 
